@@ -75,6 +75,20 @@ namespace RecInt
         return a;
     }
 
+    // a is set to a random value drawn from the generator g
+    // (each call g() is used for its 16 low bits)
+    template <size_t K, class Generator> inline ruint<K>& rand(ruint<K>& a, Generator& g) {
+        rand(a.High, g);
+        rand(a.Low, g);
+        return a;
+    }
+    template <class Generator> inline ruint<__RECINT_LIMB_SIZE>& rand(ruint<__RECINT_LIMB_SIZE>& a, Generator& g) {
+        a.Value = 0;
+        for (size_t i = 0; i < 4; ++i)
+            a.Value = (a.Value << 16) | (static_cast<limb>(g()) & 0xFFFFu);
+        return a;
+    }
+
     // Set the random seed for RecInt library
     inline void srand(const limb s) {
         std::srand((unsigned int)(s));
